@@ -292,6 +292,32 @@ impl Property for C13 {
                 }
             }
         }
+        // lazily allocated operands (valid and undecodable encodings) whose first consumer is an equality /
+        // selection gadget: a gadget that works on the encodings alone must still reject the undecodable one
+        for (a, b) in [(8u32, 3u32), (3, 8), (8, 8), (3, 3), (0, 2), (2, 0), (8, 1), (1, 8)] {
+            for (ma, mb) in [(Mode::Witness, Mode::Input), (Mode::Witness, Mode::Witness), (Mode::Input, Mode::Witness)] {
+                for g in [
+                    GOp::CondSelect { dst: 2, cond: true, a: 0, b: 1 },
+                    GOp::CondSelect { dst: 2, cond: false, a: 0, b: 1 },
+                    GOp::CondSelectConst { dst: 2, cond: true, a: 0, b: 1 },
+                    GOp::CondSelectConst { dst: 2, cond: false, a: 0, b: 1 },
+                    GOp::IsEq { a: 0, b: 1 },
+                    GOp::IsNeq { a: 0, b: 1 },
+                    GOp::EnforceEqual { a: 0, b: 1 },
+                    GOp::EnforceNotEqual { a: 0, b: 1 },
+                    GOp::CondEnforceEqual { a: 0, b: 1, cond: true },
+                    GOp::CondEnforceEqual { a: 0, b: 1, cond: false },
+                    GOp::CondEnforceEqualConst { a: 0, b: 1, cond: false },
+                    GOp::CondEnforceNotEqualConst { a: 0, b: 1, cond: true },
+                ] {
+                    let mut prog = vec![GOp::AllocLazy { dst: 0, val: Num(N::from(a)), mode: ma }, GOp::AllocLazy { dst: 1, val: Num(N::from(b)), mode: mb }, g.clone()];
+                    if let GOp::CondSelect { .. } | GOp::CondSelectConst { .. } = g {
+                        prog.push(GOp::Compress { dst: 0, e: 2 });
+                    }
+                    v.push(Case::Program { prog });
+                }
+            }
+        }
         // the identity held as (0, -1): a witnessed (decoded, canonical) copy minus a constant copy of a
         // non-canonical representative; every boolean / equality gadget on it
         for src in [Torsion(g()), MinusOneTimes(g()), Torsion(Box::new(MulGen(6u64.into()))), MulLimbs(crate::refmodel::R.m.to_u64_digits(), g()), Neg(Box::new(Torsion(Box::new(Elligator(3u64.into())))))] {
